@@ -266,6 +266,182 @@ def rule_prefix_additive(ctx):
         ctx.note("score_row does not use prefix_bonus in an addition")
 
 
+
+def rule_cell_equations(ctx):
+    """The two cell-update functions of the DP are the documented two-matrix affine-gap recurrence:
+         P' = max(M − gap_start, P − gap_extension)   with the back-pointer set iff the M branch wins strictly
+         M' = max(M + max(consecutive, bonus), P + bonus) + SCORE_MATCH, continuing the run iff it wins strictly,
+              a run that (re)starts carries its own first bonus.
+    Decision tables are extracted from MIR (loop-free bodies, values symbolic, comparisons as a finite
+    set of orderings); nothing is executed."""
+    from cfg import decision_paths
+    from common import canon, cond_truth, relation, flip
+    facts = ctx.facts
+    C = lambda name: ("const", facts.const(M, name)["value"])
+    SM, GS, GE, BC, BB = C("score::SCORE_MATCH"), C("score::PENALTY_GAP_START"), C("score::PENALTY_GAP_EXTENSION"), C("score::BONUS_CONSECUTIVE"), C("score::BONUS_BOUNDARY")
+
+    def add(*xs):
+        e = xs[0]
+        for x in xs[1:]:
+            a, b = sorted((e, x), key=repr)
+            e = ("bin", "Add", a, b)
+        return e
+
+    def flat_add(e):
+        """multiset of addends"""
+        if isinstance(e, tuple) and e and e[0] == "bin" and e[1] == "Add":
+            return flat_add(e[2]) + flat_add(e[3])
+        return [e]
+
+    def same_sum(a, b):
+        return sorted(map(repr, flat_add(a))) == sorted(map(repr, flat_add(b)))
+
+    # ---------------- p_score
+    ps = get_fn(facts, M, "fuzzy_optimal::p_score")
+    prev_p, prev_m = ("arg", 1), ("arg", 2)
+    sm = ("call", "saturating_sub", (prev_m, GS))
+    ss = ("call", "saturating_sub", (prev_p, GE))
+    paths = decision_paths(ps)
+    ctx.floor("decision paths of p_score", len(paths), 1)
+    for conds, res in paths:
+        orderings = {"lt", "eq", "gt"}   # of sm vs ss
+        for c in conds:
+            r = relation(c)
+            if r is None:
+                continue
+            a, b, st = r
+            if (a, b) == (sm, ss):
+                orderings &= st
+            elif (a, b) == (ss, sm):
+                orderings &= {flip(x) for x in st}
+            else:
+                ctx.fail_closed("p_score branches on %s, which is not a comparison of (M − gap_start) with (P − gap_extension)" % show(c[0])[:100])
+        if not orderings:
+            continue
+        rc = canon(res) if res else None
+        if not rc or rc[0] != "tuple" or len(rc[1]) != 2:
+            ctx.fail_closed("p_score does not return a (score, flag) pair")
+            continue
+        score_e, flag_e = rc[1]
+        for o in sorted(orderings):
+            key = "fuzzy_optimal::p_score|%s" % o
+            # flag
+            if flag_e[0] == "const":
+                flag = bool(flag_e[1])
+            elif flag_e[0] == "bin" and flag_e[1] in ("Gt", "Ge", "Lt", "Le", "Eq", "Ne") and {flag_e[2], flag_e[3]} == {sm, ss}:
+                st = {"Gt": {"gt"}, "Ge": {"gt", "eq"}, "Lt": {"lt"}, "Le": {"lt", "eq"}, "Eq": {"eq"}, "Ne": {"lt", "gt"}}[flag_e[1]]
+                oo = o if (flag_e[2], flag_e[3]) == (sm, ss) else flip(o)
+                flag = oo in st
+            else:
+                ctx.fail_closed("p_score: back-pointer flag %s not evaluable" % repr(flag_e)[:80])
+                continue
+            want_flag = (o == "gt")
+            okscore = (score_e == sm and o in ("gt", "eq")) or (score_e == ss and o in ("lt", "eq")) or \
+                      (score_e[0] == "call" and score_e[1] == "max" and set(score_e[2]) == {sm, ss})
+            rel_txt = {"lt": "<", "eq": "==", "gt": ">"}[o]
+            if flag != want_flag:
+                ctx.violation(key + "|backpointer", site(ps, 0),
+                              "when (M − gap_start) %s (P − gap_extension) the back-pointer says `came from M` = %s; it must be set exactly when the M branch wins strictly — on a tie (both 0 after a long gap: the unmatched sentinel also scores 0) the path reconstruction would follow a cell that is no match and report an index of a non-matching character" % (rel_txt, flag))
+            elif not okscore:
+                ctx.violation(key + "|score", site(ps, 0), "when (M − gap_start) %s (P − gap_extension) p_score returns %s" % (rel_txt, repr(score_e)[:80]))
+            else:
+                ctx.ok(site(ps, 0), "(M − gap_start) %s (P − gap_extension): score = max of the two, back-pointer = %s" % (rel_txt, flag))
+
+    # ---------------- next_m_cell
+    nm = get_fn(facts, M, "fuzzy_optimal::next_m_cell")
+    pscore, bonus, mcell = ("arg", 1), ("arg", 2), ("arg", 3)
+    consec = ("call", "max", tuple(sorted((("field", mcell, "consecutive_bonus"), BC), key=repr)))
+    mscore = ("field", mcell, "score")
+    skip_sum = add(pscore, bonus)
+    paths = decision_paths(nm)
+    ctx.floor("decision paths of next_m_cell", len(paths), 3)
+    for conds, res in paths:
+        rc = canon(res) if res else None
+        if not rc or rc[0] != "agg" or not rc[1].endswith("ScoreCell"):
+            ctx.fail_closed("next_m_cell does not return a ScoreCell literal on every path")
+            continue
+        f = dict(rc[2])
+        unmatched = None
+        ge_boundary = gt_consec = None
+        win = None   # orderings of score_match vs score_skip
+        for c in conds:
+            e, chosen, allv = c
+            t = cond_truth(chosen, allv)
+            ce = canon(e)
+            if ce[0] == "call" and ce[1] in ("eq", "ne") and any(x == mcell for x in ce[2]):
+                unmatched = t if ce[1] == "eq" else (not t)
+                continue
+            r = relation(c)
+            if r is None:
+                ctx.fail_closed("next_m_cell branches on %s" % show(e)[:90])
+                continue
+            a, b, st = r
+            if {a, b} == {bonus, BB}:
+                st2 = st if a == bonus else {flip(x) for x in st}
+                ge_boundary = st2 <= {"gt", "eq"} if st2 <= {"gt", "eq"} or st2 <= {"lt"} else None
+                if st2 <= {"lt"}:
+                    ge_boundary = False
+            elif {a, b} == {bonus, consec}:
+                st2 = st if a == bonus else {flip(x) for x in st}
+                gt_consec = True if st2 <= {"gt"} else (False if st2 <= {"lt", "eq"} else None)
+            else:
+                # score_match vs score_skip
+                sa, sb = flat_add(a), flat_add(b)
+                is_skip = lambda x: same_sum(x, skip_sum)
+                if is_skip(b) and mscore in flat_add(a):
+                    win = (a, st)
+                elif is_skip(a) and mscore in flat_add(b):
+                    win = (b, {flip(x) for x in st})
+                else:
+                    ctx.fail_closed("next_m_cell compares %s with %s" % (repr(a)[:60], repr(b)[:60]))
+        key = "fuzzy_optimal::next_m_cell|%s" % ("unmatched" if unmatched else ("match-wins" if f.get("matched") == ("const", 1) else "skip-wins"))
+        matched = f.get("matched")
+        cbf = f.get("consecutive_bonus")
+        scf = f.get("score")
+        if unmatched:
+            good = matched == ("const", 0) and cbf == bonus and same_sum(scf, add(pscore, bonus, SM))
+            if good:
+                ctx.ok(site(nm, 0), "previous M cell unmatched ⇒ new run: score = P + bonus + SCORE_MATCH, carries its own bonus")
+            else:
+                ctx.violation(key, site(nm, 0), "after an unmatched M cell the new cell is %s" % repr(f)[:160])
+            continue
+        if win is None:
+            ctx.fail_closed("next_m_cell: a path does not compare continuing the run with restarting it")
+            continue
+        match_expr, st = win
+        # which consecutive bonus does this path use?
+        cb_used = bonus if (ge_boundary and gt_consec) else consec
+        want_match_sum = add(mscore, ("call", "max", tuple(sorted((cb_used, bonus), key=repr))))
+        if cb_used == bonus:
+            alt = add(mscore, ("call", "max", (bonus, bonus)))
+        else:
+            alt = want_match_sum
+        if not (same_sum(match_expr, want_match_sum) or same_sum(match_expr, alt)):
+            ctx.violation(key + "|match-sum", site(nm, 0), "the value of continuing the run is %s; the recurrence says M + max(consecutive bonus, bonus) with consecutive bonus = %s on this path" % (repr(match_expr)[:120], "bonus (a boundary bonus above the run's)" if cb_used == bonus else "max(run's bonus, BONUS_CONSECUTIVE)"))
+            continue
+        if matched == ("const", 1):
+            if not st <= {"gt"}:
+                ctx.violation(key + "|strict", site(nm, 0), "the run is continued (matched = true) also when restarting it scores the same or better (%s)" % sorted(st))
+            elif cbf != cb_used:
+                ctx.violation(key + "|carried-bonus", site(nm, 0), "a continued run must carry its consecutive bonus (%s), the cell stores %s" % (repr(cb_used)[:70], repr(cbf)[:70]))
+            elif not same_sum(scf, add(match_expr, SM)):
+                ctx.violation(key + "|score", site(nm, 0), "continued run scores %s" % repr(scf)[:100])
+            else:
+                ctx.ok(site(nm, 0), "run continues (strictly better): score = M + max(consecutive, bonus) + SCORE_MATCH, consecutive bonus carried (%s)" % ("boundary bonus" if cb_used == bonus else "run's bonus"))
+        elif matched == ("const", 0):
+            if not st <= {"lt", "eq"}:
+                ctx.violation(key + "|strict", site(nm, 0), "the run is restarted although continuing it scores more")
+            elif cbf != bonus:
+                ctx.violation(key + "|carried-bonus", site(nm, 0),
+                              "a run that restarts after a gap must carry the bonus of its own first character; the cell stores %s — the following consecutive characters inherit a bonus that belongs to the discarded alignment (scores above the true optimum or below the recurrence)" % repr(cbf)[:80])
+            elif not same_sum(scf, add(pscore, bonus, SM)):
+                ctx.violation(key + "|score", site(nm, 0), "restarted run scores %s" % repr(scf)[:100])
+            else:
+                ctx.ok(site(nm, 0), "run restarts (gap wins or ties): score = P + bonus + SCORE_MATCH, carries its own bonus")
+        else:
+            ctx.fail_closed("next_m_cell: matched flag %s not constant on a path" % repr(matched))
+
+
 def rule_slab_choice(ctx):
     facts = ctx.facts
     fmo = get_fn(facts, M, "fuzzy_optimal::<impl Matcher>::fuzzy_match_optimal")
@@ -287,4 +463,5 @@ def rule_slab_choice(ctx):
 def rules(ctx):
     ctx.run_rule("C04.early-exit", rule_early_exit)
     ctx.run_rule("C04.prefix-additive", rule_prefix_additive)
+    ctx.run_rule("C04.cell-equations", rule_cell_equations)
     ctx.run_rule("C04.slab-choice", rule_slab_choice)
